@@ -78,7 +78,7 @@ PROBES = ['edit_applied', 'edit_flip', 'edit_version', 'edit_list',
           'no_common_alg',
           'hostkey_alg_checked',
           'handshake_ok', 'downgrade_attempt_effective', 'kex_gex',
-          'kex_rsa', 'kex_hybrid']
+          'kex_rsa', 'kex_hybrid', 'second_client_connected']
 
 
 def sub_perm(rng, items, lo=1):
@@ -133,6 +133,16 @@ def gen_plan(rng):
                                      'resign', 'sigflip', 'sigalg']),
                     pos=rng.below(1 << 16), bit=rng.below(8))
 
+    other = None
+
+    if ek == 'none' and rng.chance(50):
+        # what is negotiated on this connection must not depend on what a
+        # second client of the same listener negotiates meanwhile
+        other = {'hk': sub_perm(rng, HK_ALGS), 'delay': rng.below(12)}
+
+        if rng.chance(60) and 'host_rsa' not in skeys:
+            skeys = skeys + ['host_rsa']
+
     return {
         'drbg': rng.below(1 << 30),
         'profile': {'p_sched': rng.choice([0, 10, 50, 90]),
@@ -142,7 +152,7 @@ def gen_plan(rng):
               'hostkey_algs': chk},
         's': {'kex': skex, 'enc': senc, 'mac': smac, 'cmp': scmp,
               'hostkeys': skeys},
-        'edit': edit,
+        'edit': edit, 'other': other,
     }
 
 
@@ -158,6 +168,13 @@ def valid_plan(plan):
                     return False
 
         if not plan['s']['hostkeys'] or not plan['c']['hostkey_algs']:
+            return False
+
+        o = plan.get('other')
+
+        if o is not None and (not o['hk'] or plan['edit']['kind'] != 'none'
+                              or any(a not in HK_ALGS for a in o['hk'])
+                              or not 0 <= o['delay'] <= 100):
             return False
 
         return plan['edit']['kind'] in ('none', 'flip', 'version', 'list',
@@ -464,9 +481,14 @@ def run_plan(plan, sched_seed=None, sched_replay=None):
     owners = {'s': [], 'c': []}
     res = {'conn': None, 'exc': None}
 
+    first_up = sim.loop.create_future()
+
     def on_connection(conn):
         if not wires:
             wires.append(EditWire(conn, sim, plan['edit']))
+
+            if not first_up.done():
+                first_up.set_result(None)
 
     sim.net.on_connection = on_connection
     c, s = plan['c'], plan['s']
@@ -490,6 +512,33 @@ def run_plan(plan, sched_seed=None, sched_replay=None):
                           kex_algs=s['kex'], encryption_algs=s['enc'],
                           mac_algs=s['mac'], compression_algs=s['cmp'],
                           login_timeout=30))
+
+        other = plan.get('other')
+
+        if other:
+            # a second client of the same listener, with a host key
+            # algorithm list of its own, doing its handshake at the same time
+            async def bystander():
+                # (the connection under observation is the first one made)
+                await first_up
+
+                for _ in range(other['delay']):
+                    await sim.pause('bystander')
+
+                try:
+                    c2 = await asyncssh.connect(
+                        '127.0.0.1', 22,
+                        **client_opts(known_hosts=(trusted, [], []),
+                                      server_host_key_algs=other['hk'],
+                                      login_timeout=30))
+                    sim.probes['second_client_connected'] += 1
+                    await world.gate('done')
+                    c2.close()
+                    await c2.wait_closed()
+                except (asyncssh.Error, OSError):
+                    pass
+
+            sim.track('bystander', bystander())
 
         try:
             res['conn'] = await asyncssh.connect(
@@ -656,7 +705,10 @@ def run_plan(plan, sched_seed=None, sched_replay=None):
                     (used_hk[1], used_hk[0], expect['hostkey']),
                     sig='hostkey')
 
-        kexes = {label: k for label, k in sim.kex_used.items()}
+        # (of the connection under observation, not the second client's)
+        mine = {getattr(x, '_sim_label', None) for x in (conn, sconn)}
+        kexes = {label: k for label, k in sim.kex_used.items()
+                 if label in mine or not plan.get('other')}
 
         for label, used in kexes.items():
             if used and used[0] != alg(expect['kex']):
